@@ -79,6 +79,8 @@ def dec(spec):
         return complex(float.fromhex(spec[1]), float.fromhex(spec[2]))
     if k == "tuple":
         return tuple(dec(x) for x in spec[1])
+    if k == "pybool":
+        return bool(spec[1])
     if k == "list":
         return [dec(x) for x in spec[1]]
     raise ValueError(spec)
@@ -431,6 +433,111 @@ def run_rt(case):
     return res
 
 
+# ----------------------------------------------------------------------------- emitted text as tokens
+def py_tokens(text):
+    """Python's own tokenizer on the emitted text; NL/INDENT/DEDENT/COMMENT/ENDMARKER dropped."""
+    import io
+    import tokenize
+    out = []
+    for t in tokenize.generate_tokens(io.StringIO(text).readline):
+        if t.type in (tokenize.NL, tokenize.INDENT, tokenize.DEDENT, tokenize.COMMENT,
+                      tokenize.ENDMARKER, tokenize.ENCODING):
+            continue
+        if t.type == tokenize.NEWLINE:
+            out.append(["newline"])
+        elif t.type == tokenize.NUMBER:
+            s = t.string
+            if s[-1] in "jJ":
+                out.append(["other", s])
+            elif any(c in s for c in ".eE") and not s.lower().startswith("0x"):
+                out.append(["float", list(Fraction(float(s)).as_integer_ratio())])
+            else:
+                out.append(["int", int(s, 0)])
+        elif t.type == tokenize.NAME:
+            out.append(["name", t.string])
+        elif t.type == tokenize.OP:
+            out.append(["op", t.string])
+        else:
+            out.append(["other", tokenize.tok_name[t.type] + ":" + t.string])
+    return out
+
+
+def run_tok(case):
+    res = {}
+    try:
+        p = build_program(case["program"])
+        for ins, spec in zip(p.instructions, case["program"]):
+            if spec.get("when") == "str":
+                ins.when("x[-1] == 2")
+            elif spec.get("when") == "lambda":
+                ins.when(lambda x: x[-1] == 2)
+    except Exception as e:
+        return {"skipped": err_kind(e)}
+    try:
+        text = p._as_code()
+        res["text"] = text[:600]
+        res["tokens"] = py_tokens(text + "\n")
+        res["error"] = None
+    except PiquassoException as e:
+        res["tokens"] = None
+        res["error"] = "refused"
+    except Exception as e:
+        res["tokens"] = None
+        res["error"] = err_kind(e)
+    res["lines"] = []
+    for ins in p.instructions:
+        try:
+            res["lines"].append(ins._as_code())
+        except PiquassoException:
+            res["lines"].append(None)
+    # re-execution of the text (unconditioned programs): class, modes, params come back
+    if res["error"] is None:
+        try:
+            ns = {"pq": pq, "np": np}
+            exec(compile(text + "\n", "<program._as_code>", "exec"), ns)
+            res["exec_diff"] = diff_programs(p, ns["program"])
+        except Exception as e:
+            res["exec_diff"] = {"what": "does not execute", "error": err_kind(e)}
+    return res
+
+
+def run_strparams():
+    """What as_code does with string (expression) and callable parameters: recorded, not judged,
+    except that a successful execution must not change class or modes."""
+    out = []
+    for label, make in [
+        ("string parameter depending on outcomes", lambda: pq.Phaseshifter(phi="x[0] * 0.5")),
+        ("string parameter, constant expression", lambda: pq.Phaseshifter(phi="1 + 1")),
+        ("callable parameter", lambda: pq.Phaseshifter(phi=lambda x: 0.25)),
+        ("string condition", lambda: pq.Phaseshifter(phi=0.25).when("x[0] > 0")),
+        ("callable condition", lambda: pq.Phaseshifter(phi=0.25).when(lambda x: x[0] > 0)),
+    ]:
+        rec = {"label": label}
+        try:
+            ins = make().on_modes(1)
+            p = pq.Program(instructions=[ins])
+            try:
+                text = p._as_code()
+            except PiquassoException as e:
+                rec["outcome"] = "as_code refuses: " + str(e)[:60]
+                out.append(rec)
+                continue
+            rec["line"] = text.split("\n")[1].strip()[:120]
+            try:
+                ns = {"pq": pq, "np": np}
+                exec(compile(text + "\n", "<as_code>", "exec"), ns)
+                q = ns["program"].instructions
+                same_shape = len(q) == 1 and type(q[0]) is type(ins) and tuple(q[0].modes) == tuple(ins.modes)
+                rec["outcome"] = "executes; parameter comes back as %s" % type(list(q[0].params.values())[0]).__name__
+                rec["same_class_and_modes"] = bool(same_shape)
+            except Exception as e:
+                rec["outcome"] = "generated code does not execute: " + type(e).__name__
+        except Exception as e:
+            rec["outcome"] = "construction failed: " + err_kind(e)
+        out.append(rec)
+    return out
+
+
 # ----------------------------------------------------------------------------- config
 KW_ORDER = ["seed_sequence", "cache_size", "hbar", "use_torontonian", "cutoff", "measurement_cutoff",
             "dtype", "validate", "use_dask", "max_sample_generation_trials"]
@@ -630,6 +737,9 @@ def main():
         out["rt"] = [run_rt(c) for c in req["rt"]]
     if "config" in req:
         out["config"] = [run_config(c) for c in req["config"]]
+    if "tok" in req:
+        out["tok"] = [run_tok(c) for c in req["tok"]]
+        out["strparams"] = run_strparams()
     if "cfgeq" in req:
         out["cfgeq"] = [run_cfgeq(c) for c in req["cfgeq"]]
     if req.get("cfg_sweep"):
